@@ -393,6 +393,17 @@ def check_frames_seq(rec, out: Out):
         out.count(entry)
         if st != "ok" or got != (to_rna(s) if mt == "rna" else s):
             out.fail(f"Frames:{entry}:rc-rc", rec, entry, s, got)
+        w_rev = J(rec["ret"]["rev"])
+        w_rev = to_rna(w_rev) if mt == "rna" else w_rev
+        for obsname, f in (
+            ("rc().complement()", lambda: str(seq.rc().complement())),
+            ("[::-1].complement()", lambda: str(seq[::-1].complement())),
+            ("complement().rc()", lambda: str(seq.complement().rc())),
+        ):
+            st, got = call(f)
+            out.count(entry)
+            if st != "ok" or got != w_rev:
+                out.fail(f"Frames:{entry}:{obsname}", rec, entry, w_rev, got, f"{obsname} of {s}")
         for k in range(3):
             if k > len(s):
                 continue
@@ -703,10 +714,23 @@ def check_rc_str(rec, out: Out):
         if st != "ok" or got != want:
             out.fail(f"RcStr:{entry}:{mt}:{obsname}:{cls}", rec, entry, want, got, f"{obsname}({s!r}) for {mt}")
 
+    rc_comp, comp_rc, rc_rc = J(rec["ret"]["rc_comp"]), J(rec["ret"]["comp_rc"]), J(rec["ret"]["rc_rc"])
+
+    def two_step(entry, x):
+        """x is a real sequence object holding s: the composed forms, on views that are already reversed"""
+        cmp(entry, "rc().complement()", rc_comp, lambda: str(x.rc().complement()))
+        cmp(entry, "[::-1].complement()", rc_comp, lambda: str(x[::-1].complement()))
+        cmp(entry, "complement().rc()", comp_rc, lambda: str(x.complement().rc()))
+        cmp(entry, "rc().rc()", rc_rc, lambda: str(x.rc().rc()))
+        cmp(entry, "rc().rc().complement()", comp, lambda: str(x.rc().rc().complement()))
+        cmp(entry, "rc().complement().complement()", rc, lambda: str(x.rc().complement().complement()))
+
     for entry, m in (("old-moltype", api.old_mt[mt]), ("new-moltype", api.new_mt[mt])):
         cmp(entry, "complement", comp, lambda: m.complement(s))
         cmp(entry, "rc", rc, lambda: m.rc(s))
-        cmp(entry, "rc-rc", s, lambda: m.rc(m.rc(s)))
+        cmp(entry, "rc-rc", rc_rc, lambda: m.rc(m.rc(s)))
+        cmp(entry, "complement-of-rc", rc_comp, lambda: m.complement(m.rc(s)))
+        cmp(entry, "rc-of-complement", comp_rc, lambda: m.rc(m.complement(s)))
     if not s or len(s) > 2:
         return  # sequence objects: strings of length 1 and 2 (every symbol, every adjacent pair)
     st, seq = call(lambda: api.cogent3.make_seq(s, name=NAME, moltype=mt))
@@ -715,22 +739,35 @@ def check_rc_str(rec, out: Out):
     else:
         cmp("old-seq", "complement", comp, lambda: str(seq.complement()))
         cmp("old-seq", "rc", rc, lambda: str(seq.rc()))
-        cmp("old-seq", "rc-rc", s, lambda: str(seq.rc().rc()))
+        two_step("old-seq", seq)
     st, seq = call(lambda: api.new_mt[mt].make_seq(seq=s, name=NAME))
     if st != "ok":
         out.fail(f"RcStr:new-seq:{mt}:construct:{cls}", rec, "new-seq", s, seq)
     else:
         cmp("new-seq", "complement", comp, lambda: str(seq.complement()))
         cmp("new-seq", "rc", rc, lambda: str(seq.rc()))
-        cmp("new-seq", "rc-rc", s, lambda: str(seq.rc().rc()))
-    if mt == "dna" and len(s) == 2:
-        for entry in api.old_colls:
-            st, coll = call(lambda: api.old_coll(entry, {NAME: s}))
-            if st == "ok":
-                cmp(entry, "rc", rc, lambda: coll.rc().to_dict()[NAME])
-        st, coll = call(lambda: api.new_coll({NAME: s}))
+        two_step("new-seq", seq)
+    if len(s) == 2:
+        # members of (reverse-complemented) collections
+        for entry, klass in api.old_colls.items():
+            st, coll = call(lambda: klass(data={NAME: s}, moltype=mt))
+            if st != "ok":
+                continue
+            getter = "get_gapped_seq" if entry in ALIGNED else "get_seq"
+            cmp(entry, "rc", rc, lambda: coll.rc().to_dict()[NAME])
+            cmp(entry, "rc().rc()", rc_rc, lambda: coll.rc().rc().to_dict()[NAME])
+            cmp(entry, "member.complement()", comp, lambda: str(getattr(coll, getter)(NAME).complement()))
+            cmp(entry, "rc().member.complement()", rc_comp, lambda: str(getattr(coll.rc(), getter)(NAME).complement()))
+            cmp(entry, "rc().member.rc()", rc_rc, lambda: str(getattr(coll.rc(), getter)(NAME).rc()))
+        st, coll = call(lambda: api.new_aln.make_unaligned_seqs({NAME: s}, moltype=mt))
         if st == "ok":
-            cmp("new-SequenceCollection", "rc", rc, lambda: coll.rc().to_dict()[NAME])
+            entry = "new-SequenceCollection"
+            cmp(entry, "rc", rc, lambda: coll.rc().to_dict()[NAME])
+            cmp(entry, "rc().rc()", rc_rc, lambda: coll.rc().rc().to_dict()[NAME])
+            cmp(entry, "member.complement()", comp, lambda: str(coll.seqs[NAME].complement()))
+            cmp(entry, "rc().member.complement()", rc_comp, lambda: str(coll.rc().seqs[NAME].complement()))
+            cmp(entry, "rc().get_seq.complement()", rc_comp, lambda: str(coll.rc().get_seq(NAME).complement()))
+            cmp(entry, "rc().member.rc()", rc_rc, lambda: str(coll.rc().seqs[NAME].rc()))
 
 
 def check_prot_sym(rec, out: Out):
